@@ -4,7 +4,7 @@ From Coq Require Export String.
 From Coq Require Export Uint63.
 From Coq Require Import Ascii.
 From AGH Require Import Base.Run.
-From AGH Require Export Model.Migrate Model.MigrateLoad.
+From AGH Require Export Model.Migrate Model.MigrateLoad Model.MigrateKinds.
 (* not Local: the shard files contain string literals *)
 Open Scope string_scope.
 
@@ -108,7 +108,16 @@ Inductive case :=
   | CDur (ns : Z) (text : string)
   (* loader side (monitor only): an upgraded repository example was accepted
      by yaml.Unmarshal into the configuration type and validateConfig *)
-  | CLoader (accepted : bool).
+  | CLoader (accepted : bool)
+  (* the kinds of the Go types of [configuration] at every yaml path
+     (reflection), to be compared with the table of the current version *)
+  | CTypes (types : list (list string * Z))
+  (* the base document of the mutation run: must pass the kind check and
+     mention every position of the table *)
+  | CBase (m : obj) (accepted : bool)
+  (* a document mutated at one position of the table, and whether
+     yaml.Unmarshal into [configuration] accepted it *)
+  | CKind (m : obj) (path : list string) (accepted : bool).
 
 Definition res_ok (r : res obj) (cls : Z) (out : obj) : bool :=
   match r with
@@ -145,6 +154,9 @@ Definition case_ok (c : case) : bool :=
       && Z.eqb last last_version && Z.eqb last (Z.of_nat (length names))
   | CDur ns text => String.eqb (dur_string ns) text
   | CLoader accepted => accepted
+  | CTypes types => types_ok types
+  | CBase m accepted => accepted && kinds_accept m && covers_table m
+  | CKind m path accepted => kind_case_ok m path accepted
   end.
 
 Definition mismatches := Base.Run.mismatches case_ok.
@@ -168,4 +180,12 @@ Definition explain (c : case) : Z * val :=
   | CTable _ _ => (last_version, VNull)
   | CDur ns _ => (ns, VStr (dur_string ns))
   | CLoader _ => (1%Z, VNull)
+  | CTypes types =>
+      (* the positions of the table the Go types disagree with *)
+      (0%Z, VArr (map (fun ps => VStr (String.concat "." (fst ps)))
+                      (filter (fun ps => negb (path_ok types (fst ps) (snd ps))) (paths_of (schema current) []))))
+  | CBase m _ =>
+      (0%Z, VArr (map (fun ps => VStr (String.concat "." (fst ps)))
+                      (filter (fun ps => negb (has_path (VObj m) (fst ps))) (paths_of (schema current) []))))
+  | CKind m _ _ => ((if kinds_accept m then 1 else 0)%Z, VNull)
   end.
